@@ -41,10 +41,14 @@ def conv(b_lf, kind, rng=None):
     return b''.join(out)
 
 
+HDR = b'/*\n * inserted header, line 2\n * line 3\n */\n'
+_HDR = {}       # set per judged case: {'hdr.txt': bytes} when the case inserts a file header
+
+
 def fmt(src, lang, cfgd, nl):
     d = dict(cfgd)
     d['newlines'] = nl
-    r, _ = run.fmt(src, lang, registry.cfg_text(d))
+    r, _ = run.fmt(src, lang, registry.cfg_text(d), files=_HDR.get('files'))
     return r
 
 
@@ -68,6 +72,11 @@ def where(R, other, lang):
 def judge(case):
     x = to_lf(case.src)
     lang, cfgd = case.lang, case.cfgd
+    _HDR.clear()
+    if (case.extra or {}).get('hdr_term'):
+        # a file header is inserted from a file that has its own terminators: they must not influence the output's
+        cfgd = dict(cfgd, cmt_insert_file_header='hdr.txt')
+        _HDR['files'] = {'hdr.txt': HDR.replace(b'\n', TERM[case.extra['hdr_term']])}
     if b'\x00' in x[:4096]:
         return {'counts': ['skipped_utf16'], 'classes': ['skipped:utf16']}, []      # terminators of UTF-16 text are two-byte units (C09)
     rng = random.Random(core.subseed(case.key(), 'mix'))
@@ -128,10 +137,16 @@ def judge(case):
             fail('O3-' + k, 'status', b'', 'exit %s' % r.status)
         elif r.out != R:
             fail('O3-' + k, 'conversion-changes-output', r.out, k)
+    hdr_term = (case.extra or {}).get('hdr_term')
     for k in ('lf', 'crlf', 'cr'):
         src = x if k == 'lf' else inputs[k]
         if not BRK.search(src):
             continue
+        if hdr_term and hdr_term != k:
+            # the inserted file is read text too and its breaks are counted (reading "the input" as every text read): assert the source's
+            # terminator only when it outnumbers the header's by more than the breaks the census does not count
+            if x.count(b'\n') <= 1.25 * HDR.count(b'\n') + 3 or x.count(b'\n') < 12:
+                continue
         r = fmt(src, lang, cfgd, 'auto')
         if r.timeout:
             continue
@@ -147,7 +162,7 @@ def judge(case):
     total = sum(cnt.values())
     # the census does not count breaks inside comments, continuations, strings and disabled regions: assert the majority only when its
     # margin is larger than a conservative bound on those (25 % of all breaks + 2)
-    if total >= 8 and cnt[order[0]] - cnt[order[1]] > 0.25 * total + 2:
+    if total >= 8 and cnt[order[0]] - cnt[order[1]] > 0.25 * total + 2 + (HDR.count(b'\n') if hdr_term else 0):
         r = fmt(mixed, lang, cfgd, 'auto')
         if r.ok and r.out != R.replace(b'\n', TERM[order[0]]):
             fail('O2-mixed', 'auto-majority', r.out.replace(TERM[order[0]], b'\n') if order[0] != 'lf' else r.out, 'majority %s %r' % (order[0], cnt))
@@ -201,6 +216,13 @@ def main(ctx):
         src = corpus.read(rel)
         for i, cd in enumerate(cfgs):
             cases.append(family.Case(src, lang, cd, {'kind': 'corpus', 'file': rel, 'cfg_index': i}))
+    # a file header inserted from a file with its own terminators (cmt_insert_file_header): a seeded sample of files that do not start
+    # with a comment x the header file stored as LF / CRLF / CR
+    hr = random.Random(core.subseed(ctx.useed, 'hdr'))
+    cand = [(rel, lang) for rel, lang in corpus.files() if not corpus.read(rel).lstrip().startswith((b'/*', b'//'))]
+    for rel, lang in hr.sample(cand, min(len(cand), 60 if quick else 600)):
+        for t in ('lf', 'crlf', 'cr'):
+            cases.append(family.Case(corpus.read(rel), lang, {}, {'kind': 'corpus', 'file': rel, 'cfg_index': 'hdr-' + t}, {'hdr_term': t}))
     raw = family.explore(ctx, judge, cases, batch=6)
     raw += family.hyp_explore(ctx, judge, make_strategy, to_case, shards=16, examples=(40 if quick else 1500))
     family.triage(ctx, judge, raw, minimise_src=8000, per_cluster=1)
